@@ -1433,7 +1433,12 @@ fn gen_rows(rng: &mut Rng, n: usize, p: usize, f32mode: bool) -> Array2<f64> {
     if std::env::var("C16_NO_TINY").is_err() && rng.gen_range(0..4) == 0 {
         let i = rng.gen_range(0..n);
         // ... or near the top of it (their squares overflow)
-        let tiny = if rng.gen_bool(0.5) { if f32mode { 1e-42 } else { 1e-310 } } else if f32mode { 1e36 } else { 1e305 };
+        // ... at the magnitudes where squares start to under- or overflow (sqrt of the smallest / largest float)
+        let tiny = if f32mode {
+            *gen::pick(rng, &[1e-42, 1e36, 1.5e19, 4e18, 1e-19, 3e-23])
+        } else {
+            *gen::pick(rng, &[1e-310, 1e305, 1.2e154, 3e153, 1e-154, 2e-162])
+        };
         for j in 0..p {
             b[[i, j]] = tiny * rng.gen_range(-4..=4) as f64;
         }
